@@ -215,7 +215,7 @@ func (l *limitedWriter) Write(p []byte) (int, error) {
 
 func runC05(r *rt.Run) {
 	r.Rule = "object pool of all 12 kinds (C09 pool plus constructor-only degenerates: nil polygon, 0/1-position lines, short rings, empty and 3-deep nested collections) x every Object / Spatial / Collection / geometry method with every pool object as argument; Parse on all byte strings <= 3, all token strings <= 5 (thorough 6), every document within 1-2 deviations of the grammar seeds, nesting families, under 4 option sets; each call under a deterministic fuel budget (10^6 + 2000 (n+m+1)^2 instrumented steps); non-trivial = call on non-empty operands / text starting with '{'"
-	r.Assume = []string{"loops inside gjson/pretty/sjson/rtree are not fuel-instrumented: covered by a 120 s no-progress kill of the worker", "nil Object arguments are outside the property (not objects)"}
+	r.Assume = []string{"loops inside gjson/pretty/sjson/rtree are not fuel-instrumented: covered by a 300 s no-progress kill of the worker", "nil Object arguments are outside the property (not objects)"}
 	scratch, bin, err := instrBuild(r)
 	if scratch != "" {
 		defer os.RemoveAll(scratch)
@@ -224,10 +224,10 @@ func runC05(r *rt.Run) {
 		r.HarnessError("instrumented build failed: " + err.Error())
 		return
 	}
-	runWorkers(r, bin, "c05worker", 120*time.Second)
+	runWorkers(r, bin, "c05worker", 300*time.Second)
 	// the documents with many members once more in processes that have four
 	// processors (work the library hands to goroutines of its own must come back)
-	runWorkers(r, bin, "c05mp", 120*time.Second)
+	runWorkers(r, bin, "c05mp", 300*time.Second)
 	r.Bounds["workers"] = runtime.GOMAXPROCS(0)
 	r.Sample(rt.Case{Kind: "call", Op: "Contains", X: map[string]string{"recv": "LineString [(0,0),(1,0),(2,0)]", "arg": "LineString [(2,0),(1,0),(1,1)]"}})
 	r.Sample(rt.Case{Kind: "parsecall", Doc: `{"type":"Polygon","coordinates":[[[0,0],[1,1]]]}`, Cfg: "default"})
